@@ -276,3 +276,7 @@ func runOne(h func()) (outcome, detail string) {
 // (an existential obligation); natively it is a no-op — harnesses decide the
 // same obligation by enumeration under Replaying().
 func Exists(cond bool, label string) {}
+
+// PermuteMaps: while on, the engine treats the iteration order of every map
+// with at most three entries as a symbolic choice (all permutations explored).
+func PermuteMaps(on bool) {}
